@@ -261,11 +261,122 @@ class _Stmts(ast.NodeTransformer):
         return node
 
 
+# ------------------------------------------------------------------------------------------------
+# N5  comprehension over a generator function of the same module, consumed eagerly  ->  explicit loop
+#
+#       return C(tuple(ELT for T in gen(ARGS) if COND))        _gen_L = []
+#                                                               for T in gen(ARGS):
+#                                                                   if COND: _gen_L.append(ELT)
+#                                                               return C(tuple(_gen_L))
+#
+#     so that the generator's body is analysed in place (the path enumerator runs generators inside `for` statements).
+#     side conditions: `gen` is (by name) a function of this module that contains `yield`; the comprehension has one
+#     generator clause; it is a list comprehension or a generator expression that is the only argument of an eager
+#     consumer (tuple, list, set, frozenset, sorted, sum, min, max, "".join); apart from the comprehension's ancestors the
+#     statement contains no other call / await (nothing whose evaluation order relative to the loop could matter).
+_EAGER = {"tuple", "list", "set", "frozenset", "sorted", "sum", "min", "max"}
+
+
+def _generator_names(tree) -> t.Set[str]:
+    out = set()
+    for n in ast.walk(tree):
+        if isinstance(n, ast.FunctionDef):
+            stack = list(n.body)
+            while stack:
+                x = stack.pop()
+                if isinstance(x, (ast.Yield, ast.YieldFrom)):
+                    out.add(n.name)
+                    break
+                if isinstance(x, (ast.FunctionDef, ast.AsyncFunctionDef, ast.Lambda, ast.ClassDef)):
+                    continue
+                stack.extend(ast.iter_child_nodes(x))
+    return out
+
+
+class _N5:
+    def __init__(self, gens: t.Set[str]):
+        self.gens = gens
+        self.count = 0
+
+    def _candidate(self, st):
+        """-> (comprehension node, parent node, field, index) or None"""
+        if not isinstance(st, (ast.Return, ast.Assign, ast.AnnAssign, ast.Expr)) or getattr(st, "value", None) is None:
+            return None
+        parents = {}
+        for p in ast.walk(st):
+            for ch in ast.iter_child_nodes(p):
+                parents[ch] = p
+        for n in ast.walk(st):
+            if not isinstance(n, (ast.ListComp, ast.GeneratorExp)) or len(n.generators) != 1 or n.generators[0].is_async:
+                continue
+            it = n.generators[0].iter
+            if not (isinstance(it, ast.Call) and ((isinstance(it.func, ast.Attribute) and it.func.attr in self.gens) or
+                                                   (isinstance(it.func, ast.Name) and it.func.id in self.gens))):
+                continue
+            par = parents.get(n)
+            if isinstance(n, ast.GeneratorExp):
+                ok = isinstance(par, ast.Call) and par.args == [n] and not par.keywords and (
+                    (isinstance(par.func, ast.Name) and par.func.id in _EAGER) or
+                    (isinstance(par.func, ast.Attribute) and par.func.attr == "join"))
+                if not ok:
+                    continue
+            anc = set()
+            cur = n
+            while cur in parents:
+                cur = parents[cur]
+                anc.add(cur)
+            inside = set(ast.walk(n))
+            other = [x for x in ast.walk(st) if isinstance(x, (ast.Call, ast.Await, ast.Yield, ast.YieldFrom, ast.NamedExpr))
+                     and x not in anc and x not in inside]
+            if other:
+                continue
+            return n, par
+        return None
+
+    def block(self, body):
+        out = []
+        for st in body:
+            for field in ("body", "orelse", "finalbody"):
+                sub = getattr(st, field, None)
+                if isinstance(sub, list) and sub and isinstance(sub[0], ast.stmt):
+                    setattr(st, field, self.block(sub))
+            for h in getattr(st, "handlers", []) or []:
+                h.body = self.block(h.body)
+            cand = self._candidate(st)
+            if cand is None:
+                out.append(st)
+                continue
+            comp, par = cand
+            g = comp.generators[0]
+            name = f"_gen_{comp.lineno}_{comp.col_offset}"
+            init = ast.copy_location(ast.Assign(targets=[ast.copy_location(ast.Name(id=name, ctx=ast.Store()), comp)],
+                                                value=ast.copy_location(ast.List(elts=[], ctx=ast.Load()), comp)), comp)
+            app = ast.copy_location(ast.Expr(value=ast.copy_location(ast.Call(
+                func=ast.copy_location(ast.Attribute(value=ast.copy_location(ast.Name(id=name, ctx=ast.Load()), comp), attr="append", ctx=ast.Load()), comp),
+                args=[comp.elt], keywords=[]), comp)), comp)
+            inner: ast.stmt = app
+            for c in reversed(g.ifs):
+                inner = ast.copy_location(ast.If(test=c, body=[inner], orelse=[]), c)
+            loop = ast.copy_location(ast.For(target=g.target, iter=g.iter, body=[inner], orelse=[], type_comment=None), comp)
+            ref = ast.copy_location(ast.Name(id=name, ctx=ast.Load()), comp)
+            for field, val in ast.iter_fields(par):
+                if val is comp:
+                    setattr(par, field, ref)
+                elif isinstance(val, list) and comp in val:
+                    val[val.index(comp)] = ref
+            self.count += 1
+            out.extend([init, loop, st])
+        return out
+
+
 def normalise(tree: ast.Module) -> int:
     """rewrites tree in place, returns the number of rewrites"""
     st = _Stmts()
     tree.body = st._list(tree.body)
     n1 = _N1()
     tree.body = n1._block(tree.body, set())
+    n5 = _N5(_generator_names(tree))
+    if n5.gens:
+        tree.body = n5.block(tree.body)
     ast.fix_missing_locations(tree)
-    return n1.count + st.count
+    return n1.count + st.count + n5.count
